@@ -34,10 +34,59 @@ func isQuantLine(l string) bool {
 // Script builds the SMT-LIB text of an obligation. With dropQuant the
 // quantified assumptions are left out (weaker hypotheses: an `unsat` is still
 // a proof; a `sat` then only yields a candidate counterexample).
+// relevantAxioms: a global axiom is included in a query only if it shares an
+// uninterpreted spec function with the rest of the query (closure).
+func (o *Obligation) relevantAxioms() map[int]bool {
+	syms := map[string]bool{}
+	addSyms := func(l string) bool {
+		grew := false
+		for _, t := range sexprTokens(l) {
+			if strings.HasPrefix(t, "spec_") && !syms[t] {
+				syms[t] = true
+				grew = true
+			}
+		}
+		return grew
+	}
+	for i, l := range o.Ctx.lines[:o.Mark] {
+		if !o.Ctx.axiomLine[i] && !strings.HasPrefix(l, "(declare-") {
+			addSyms(l)
+		}
+	}
+	addSyms(o.Guard)
+	addSyms(o.Goal)
+	incl := map[int]bool{}
+	for changed := true; changed; {
+		changed = false
+		for i := range o.Ctx.axiomLine {
+			if i >= o.Mark || incl[i] {
+				continue
+			}
+			hit := false
+			for _, t := range sexprTokens(o.Ctx.lines[i]) {
+				if strings.HasPrefix(t, "spec_") && syms[t] {
+					hit = true
+					break
+				}
+			}
+			if hit {
+				incl[i] = true
+				addSyms(o.Ctx.lines[i])
+				changed = true
+			}
+		}
+	}
+	return incl
+}
+
 func (o *Obligation) Script(dropQuant bool) string {
 	var b strings.Builder
 	b.WriteString("(set-option :produce-models true)\n(set-logic ALL)\n")
-	for _, l := range o.Ctx.lines[:o.Mark] {
+	rel := o.relevantAxioms()
+	for i, l := range o.Ctx.lines[:o.Mark] {
+		if o.Ctx.axiomLine[i] && !rel[i] {
+			continue
+		}
 		if dropQuant && strings.HasPrefix(l, "(assert ") && isQuantLine(l) {
 			continue
 		}
@@ -132,7 +181,11 @@ func expandToks(toks []string, n int) ([]string, bool) {
 func (o *Obligation) ScriptSmall(n int) string {
 	var b strings.Builder
 	b.WriteString("(set-option :produce-models true)\n(set-logic ALL)\n")
-	for _, l := range o.Ctx.lines[:o.Mark] {
+	rel := o.relevantAxioms()
+	for i, l := range o.Ctx.lines[:o.Mark] {
+		if o.Ctx.axiomLine[i] && !rel[i] {
+			continue
+		}
 		if strings.HasPrefix(l, "(assert ") && isQuantLine(l) {
 			e, ok := expandQuant(l, n)
 			if !ok || isQuantLine(e) {
@@ -203,11 +256,15 @@ var procSem = make(chan struct{}, 16)
 
 // race runs all solvers on one script; the first definitive answer wins.
 func race(script string, dir, base string, timeout int, all bool) (solveResult, []solveResult) {
+	return raceCtx(context.Background(), script, dir, base, timeout, all)
+}
+
+func raceCtx(parent context.Context, script string, dir, base string, timeout int, all bool) (solveResult, []solveResult) {
 	file := filepath.Join(dir, base+".smt2")
 	if err := os.WriteFile(file, []byte(script), 0o644); err != nil {
 		return solveResult{status: "error", out: err.Error()}, nil
 	}
-	ctx, cancel := context.WithCancel(context.Background())
+	ctx, cancel := context.WithCancel(parent)
 	defer cancel()
 	ch := make(chan solveResult, len(solvers))
 	for _, sp := range solvers {
@@ -310,7 +367,13 @@ func (o *Obligation) Solve(dir string, timeout int, all bool) {
 	if len(base) > 150 {
 		base = base[:150]
 	}
+	tS := time.Now()
 	full := o.Script(false)
+	if os.Getenv("VCGEN_TRACE") != "" {
+		defer func(n string, d float64) {
+			fmt.Fprintf(os.Stderr, "obl %s script=%.2fs total=%.2fs status=%s\n", n, d, time.Since(tS).Seconds(), o.Status)
+		}(o.Name, time.Since(tS).Seconds())
+	}
 	hasQ := false
 	for _, l := range o.Ctx.lines[:o.Mark] {
 		if strings.HasPrefix(l, "(assert ") && isQuantLine(l) {
@@ -327,26 +390,61 @@ func (o *Obligation) Solve(dir string, timeout int, all bool) {
 		return
 	}
 	if hasQ {
-		w, _ := race(o.Script(true), dir, base+".A", timeout, false)
-		o.Phase = "A"
-		o.Status, o.Solver, o.Seconds, o.Raw = w.status, w.solver, w.seconds, w.out
-		if w.status == "unsat" {
+		// phase A (quantified assumptions dropped: an unsat is still a proof,
+		// a sat only a candidate model) and phase B (everything) run
+		// concurrently; the first proof wins.
+		ctxA, cancelA := context.WithCancel(context.Background())
+		ctxB, cancelB := context.WithCancel(context.Background())
+		defer cancelA()
+		defer cancelB()
+		type res struct {
+			w  solveResult
+			rs []solveResult
+		}
+		chA := make(chan res, 1)
+		chB := make(chan res, 1)
+		start := time.Now()
+		go func() { w, rs := raceCtx(ctxA, o.Script(true), dir, base+".A", timeout, false); chA <- res{w, rs} }()
+		go func() { w, rs := raceCtx(ctxB, full, dir, base+".B", timeout, all); chB <- res{w, rs} }()
+		var ra, rb *res
+		for ra == nil || rb == nil {
+			select {
+			case r := <-chA:
+				ra = &r
+				if r.w.status == "unsat" && !all {
+					cancelB()
+					o.Phase = "A"
+					o.Status, o.Solver, o.Raw = r.w.status, r.w.solver, r.w.out
+					o.Seconds = time.Since(start).Seconds()
+					return
+				}
+			case r := <-chB:
+				rb = &r
+				if r.w.status == "unsat" || r.w.status == "sat" {
+					cancelA()
+					if ra == nil {
+						ra = &res{w: solveResult{status: "cancelled"}}
+					}
+				}
+			}
+		}
+		o.Seconds = time.Since(start).Seconds()
+		if ra.w.status == "unsat" {
+			o.Phase = "A"
+			o.Status, o.Solver, o.Raw = ra.w.status, ra.w.solver, ra.w.out
 			return
 		}
-		candidate := w
-		w2, rs := race(full, dir, base+".B", timeout, all)
 		o.Phase = "B"
-		o.Seconds += w2.seconds
-		o.Status, o.Solver, o.Raw = w2.status, w2.solver, w2.out
-		if w2.status == "sat" {
-			o.Model = parseModel(w2.out)
-		} else if w2.status != "unsat" && candidate.status == "sat" {
+		o.Status, o.Solver, o.Raw = rb.w.status, rb.w.solver, rb.w.out
+		if rb.w.status == "sat" {
+			o.Model = parseModel(rb.w.out)
+		} else if rb.w.status != "unsat" && ra.w.status == "sat" {
 			// candidate counterexample from the weaker hypotheses
-			o.Model = parseModel(candidate.out)
-			o.Raw = w2.out + "\n--- candidate model from phase A (quantified assumptions dropped) ---\n" + candidate.out
+			o.Model = parseModel(ra.w.out)
+			o.Raw = rb.w.out + "\n--- candidate model from phase A (quantified assumptions dropped) ---\n" + ra.w.out
 		}
 		if all {
-			o.checkAgreement(rs)
+			o.checkAgreement(rb.rs)
 		}
 		return
 	}
